@@ -3,6 +3,7 @@ import ast
 import copy
 import inspect
 import json
+import sys
 
 import engine
 import gen_inputs
@@ -205,6 +206,52 @@ def encode_deterministic(ctx, protos):
 
 
 
+def process_wide_state(ctx, protos):
+    """Settings and results of one instance must not depend on what OTHER instances did earlier in the process - also not through
+    process-wide caches, which an in-process differential cannot see because both runs share them.  Two fresh interpreters run the same
+    cases with the two instances in opposite order (tools/iso_worker.py); the outcomes per instance must be identical."""
+    import os
+    import subprocess
+    import props.c04 as c04
+    rng = ctx.rng
+    cases = []
+    for p in protos:
+        if p['eclass'] not in ('H', 'M'):
+            continue
+        a = gen_inputs.param_assignments(p, rng, 1)[0]
+        c, e = engine.fresh_encode(p, a)
+        if c is None:
+            continue
+        f = list(c.normalized_rlc[0])
+        nli, nlo = len(p['lead_in']), len(p['lead_out'])
+        if len(f) - nli - nlo < 2:
+            continue
+        i = rng.randrange(nli, len(f) - max(nlo, 1))
+        v = c04.near_outside(p, f[i], 5)
+        if v is None:
+            continue
+        g = list(f)
+        g[i] = v
+        cases.append((p['name'], f, g))
+    outs = {}
+    for order in ('XY', 'YX'):
+        r = subprocess.run([sys.executable, '-B', os.path.join(os.path.dirname(os.path.dirname(os.path.abspath(__file__))), 'iso_worker.py'), order],
+                           input=json.dumps(cases), stdout=subprocess.PIPE, stderr=subprocess.PIPE, text=True, timeout=600)
+        try:
+            outs[order] = json.loads(r.stdout)
+        except Exception:  # noqa
+            ctx.report('harness', 'isolation worker failed', dict(order=order), dict(theorem='tools/iso_worker.py ' + order, stderr=r.stderr[-600:]),
+                       found_input=False)
+            return
+    for (name, f, g), a, b in zip(cases, outs['XY'], outs['YX']):
+        ctx.count_eval(key=('process-wide', name, tuple(g[:10])))
+        if a != b:
+            ctx.report(name, 'activity on another instance changes the result', dict(frames=2, sig='order of two instances with different tolerance'),
+                       dict(protocol=name, exact_frame=f, frame_with_off_burst=g, x_tolerance='default', y_tolerance=5,
+                            x_first=dict(x=a[0], y=a[1]), y_first=dict(x=b[0], y=b[1])))
+    ctx.extra['process_wide_cases'] = len(cases)
+
+
 def run(ctx):
     vlib.import_repo()
     vlib.ensure_static_build()
@@ -216,6 +263,7 @@ def run(ctx):
     h1 = input_unmodified(ctx, protos)
     h2 = two_instances(ctx, protos, 6 if ctx.tier == 'quick' else 80)
     encode_deterministic(ctx, protos)
+    process_wide_state(ctx, protos)
     # the protocols flagged by the fact extractor but clean in the differential, and vice versa, are listed
     ctx.extra['isolated_by_construction'] = [p['name'] for p in protos if p['name'] not in writers]
     ctx.extra['differential_hits'] = sorted(h2)
